@@ -827,11 +827,31 @@ class Exec:
 
     def ev_Dict(self, node, env):
         d = {}
+        abstract = []
         for k, v in zip(node.keys, node.values):
             if k is None:
-                d.update(self.ev(v, env))
+                x = self.ev(v, env)
+                if isinstance(x, dict):
+                    d.update(x)
+                elif type(x).__name__ == "AbsDict":
+                    abstract.append(x)           # {**a, **b} over abstract dictionaries: merged below
+                else:
+                    raise SymExError(f"** unpacking of {type(x).__name__} in a dict display at line {node.lineno}")
             else:
                 d[_hashable(self.ev(k, env))] = self.ev(v, env)
+        if abstract:
+            # a NEW top-level dictionary whose values are shared with the operands (shallow merge): it may reach whatever they reach.
+            # Key order is not part of the abstraction.
+            from .heap import AbsDict
+            m = AbsDict({f"fresh#display{node.lineno}"}, "{**...}", abstract[0].log)
+            for x in abstract:
+                m.stored |= x.reach()
+                m.known.update(x.known)
+            for k_, v_ in d.items():
+                m.known[k_ if isinstance(k_, str) else str(k_)] = v_
+                if isinstance(v_, AbsDict):
+                    m.stored |= v_.reach()
+            return m
         return d
 
     def ev_Set(self, node, env):
